@@ -4,6 +4,7 @@ import (
 	"fmt"
 	"strconv"
 	"strings"
+	"time"
 )
 
 func init() { propChecks["C06"] = checkC06 }
@@ -279,6 +280,73 @@ func checkC06(w *Worker) {
 		x.Case(fmt.Sprint(zone, today, k, side, cmd), true)
 		if r.Failed != ref.Failed || r.Stdout != ref.Stdout {
 			x.Violate("C06|"+strings.Join(cmd, " ")+"|daylight-saving-zone|differs-from-restricted-log", fmt.Sprintf("`%s` (--today %s, bound %s = %s)\nprinted:\n%s\nwith the other days deleted and no period the same command prints:\n%s", c.shell(), today, k, fromDayNumber(bn), r.String(), ref.String()),
+				map[string]interface{}{"cmd": c.shell(), "observed": r.String(), "expected": ref.String()})
+		}
+	})
+	// other date formats (no year, two-digit year, ISO, day first): the same period semantics on the days as the
+	// format reads them; bounds absent, on a log day, between log days; keyword bounds against --today
+	c06Formats := []string{"01/02", "06.01.02", "2006-01-02", "2.1.2006", "Jan 2"}
+	fmtBounds := []string{"", "2021/01/23", "2021/01/24", "2021/01/25", "2021/01/26", "today", "yesterday"}
+	w.Explore("date-formats-x-open-and-closed-periods", ExploreOpts{ShardDepth: 4}, func(x *Exec) {
+		format := c06Formats[x.Choose(len(c06Formats), "config:date-format")]
+		ci := x.Choose(len(c06Cmds), "input:command")
+		b := fmtBounds[x.Choose(len(fmtBounds), "input:begin")]
+		e := fmtBounds[x.Choose(len(fmtBounds), "input:end")]
+		conv := func(d string) string {
+			if d == "" || c06Keywords[d] != "" {
+				return d
+			}
+			t, err := time.Parse("2006/01/02", d)
+			if err != nil {
+				hfail("bad date %q", d)
+			}
+			return t.Format(format)
+		}
+		all := c06Log([]string{"2021/01/26", "2021/01/24", "2020/12/31", "2021/01/25", "2021/01/24", "2021/02/01"})
+		sel := refFilter(all, b, e)
+		if !strings.Contains(format, "2006") && !strings.Contains(format, "06") {
+			// without a year 2020/12/31 reads as a day late in the same (year-less) year
+			sel = nil
+			lo, hi := 0, 1<<30
+			if n, ok := resolveBound(b); ok {
+				lo = n
+			}
+			if n, ok := resolveBound(e); ok {
+				hi = n
+			}
+			for _, d := range all {
+				n := dayNumber(d.Date)
+				if d.Date == "2020/12/31" {
+					n = dayNumber("2021/12/31")
+				}
+				if n >= lo && n <= hi {
+					sel = append(sel, d)
+				}
+			}
+		}
+		inFormat := func(l absLog) string {
+			var out absLog
+			for _, d := range l {
+				d.Date = conv(d.Date)
+				out = append(out, d)
+			}
+			return renderLog(out)
+		}
+		args := []string{"--no-color", "--date-format", format, "--today", conv(c06Today)}
+		if b != "" {
+			args = append(args, "-b", conv(b))
+		}
+		if e != "" {
+			args = append(args, "-e", conv(e))
+		}
+		cmd := c06Cmds[ci]
+		c := appCase{Args: append(args, cmd.Args...), Files: map[string]string{"food.yaml": bookText, "log.yaml": inFormat(all)}}
+		r := runApp(c)
+		ref := runApp(appCase{Args: append([]string{"--no-color", "--date-format", format, "--today", conv(c06Today)}, cmd.Args...), Files: map[string]string{"food.yaml": bookText, "log.yaml": inFormat(sel)}})
+		x.Obs(r.Key())
+		x.Case(fmt.Sprint(format, ci, b, e), b != "" || e != "")
+		if r.Failed != ref.Failed || r.Stdout != ref.Stdout {
+			x.Violate("C06|"+cmd.Name+"|date-format|differs-from-restricted-log", fmt.Sprintf("`%s`\nprinted:\n%s\nwith the other days deleted and no period the same command prints:\n%s", c.shell(), r.String(), ref.String()),
 				map[string]interface{}{"cmd": c.shell(), "observed": r.String(), "expected": ref.String()})
 		}
 	})
